@@ -127,7 +127,7 @@ void vf_run(uint64_t idx, const std::string& tier, vf::Ctx& c) {
     c.eval(); c.nontrivial();
     long double want = k.tangent ? k.k0 : 1.0L;
     c.note_max("standard_parallel_scale_err", (double)std::max(fabsl(h - want), fabsl(kk - want)));
-    if (fabsl(h - want) > 1e-7L || fabsl(kk - want) > 1e-7L) c.violation("LambertConverter.scaleOnStandardParallel", cj, vf::JO().num("parallel_deg", sp / D).num("dlon_deg", dl / D).num("h", h).num("k", kk).num("want", want).done());
+    if (fabsl(h - want) > 1e-8L || fabsl(kk - want) > 1e-8L) c.violation("LambertConverter.scaleOnStandardParallel", cj, vf::JO().num("parallel_deg", sp / D).num("dlon_deg", dl / D).num("h", h).num("k", kk).num("want", want).done());
   }
   for (double dphi : {0.0, 1.0, -1.0, 4.0, -4.0, 8.0, -8.0}) for (double dlam : {0.0, 1.0, -1.0, 10.0, -10.0, 30.0, -30.0}) {
     double lat = k.lat0 + dphi * D, lon = k.lon0 + dlam * D;
@@ -139,7 +139,7 @@ void vf_run(uint64_t idx, const std::string& tier, vf::Ctx& c) {
     if (dlam == 0 && std::fabs(p[0] - k.x0) > 1e-6) c.violation("LambertConverter.toLambert.centralMeridian", params, vf::JO().num("x", p[0]).num("x0", k.x0).done());
     long double h, kk, ca, orient; scales(lat, lon, h, kk, ca, orient);
     c.note_max("conformality_h_minus_k", (double)fabsl(h - kk)); c.note_max("meridian_parallel_cos_angle", (double)fabsl(ca));
-    if (fabsl(h - kk) > 1e-7L || fabsl(ca) > 1e-7L || !(orient > 0)) c.violation("LambertConverter.toLambert.conformal", params, vf::JO().num("h", h).num("k", kk).num("cos_angle", ca).num("orientation", orient).done());
+    if (fabsl(h - kk) > 1e-8L || fabsl(ca) > 1e-8L || !(orient > 0)) c.violation("LambertConverter.toLambert.conformal", params, vf::JO().num("h", h).num("k", kk).num("cos_angle", ca).num("orientation", orient).done());
     // inverse
     WGS84Coordinates w = conv.toWGS84(p);
     c.obs(w.latitude); c.obs(w.longitude);
@@ -161,7 +161,7 @@ std::string vf_describe(const std::string& tier) {
   o.str("named_zones", "Lambert-93, CC42..CC50, Lambert I, II, III, IV, II etendu");
   o.str("points", "dlat {0,+-1,+-4,+-8} deg x dlon {0,+-1,+-10,+-30} deg around the projection origin; standard parallels at dlon {0,7,-25} deg");
   o.str("interleaving", th ? "three long-lived converters (Lambert-93/GRS80, Lambert II etendu/Clarke 1880, a southern secant cone on the sphere), every sequence of 4 calls over {toLambert x3 points, toWGS84 x3 points} x 3 converters, each result bit-equal to the same call on a fresh isolated converter" : "three long-lived converters (Lambert-93/GRS80, Lambert II etendu/Clarke 1880, a southern secant cone on the sphere), every sequence of 3 calls over {toLambert x3 points, toWGS84 x3 points} x 3 converters, each result bit-equal to the same call on a fresh isolated converter");
-  o.str("oracle", "central differences (1e-5 rad) of the library forward map: |h-k|<=1e-7, meridian/parallel images orthogonal and positively oriented, scale 1 (k0) on the standard parallel(s) within 1e-7; origin and central meridian within 1 micrometre; inverse within 1e-11 rad; termination by watchdog");
+  o.str("oracle", "central differences (1e-5 rad) of the library forward map: |h-k|<=1e-8, meridian/parallel images orthogonal (1e-8) and positively oriented, scale 1 (k0) on the standard parallel(s) within 1e-8; origin and central meridian within 1 micrometre; inverse within 1e-11 rad; termination by watchdog");
   return o.done();
 }
 
